@@ -188,7 +188,10 @@ def replay_once(exe, spec, path, timeout=60, want_kind=False):
             cmd = [exe, 'replay', path, '--watchdog', '1']
         r = subprocess.run(cmd, stdout=subprocess.PIPE, stderr=subprocess.STDOUT, text=True, timeout=timeout,
                            env=run_env(spec), errors='replace')
-        kind = 'pass' if r.returncode == 0 else 'fail' if r.returncode == 1 else 'hang' if r.returncode == 4 else 'died'
+        kind = 'pass' if r.returncode == 0 else 'fail' if r.returncode == 1 else 'hang' if r.returncode == 4 else \
+            'error' if r.returncode == 2 else 'died'
+        if kind == 'error':  # the replay machinery itself could not run the case: never a verdict
+            raise HarnessError('replay of %s could not be run: %s' % (path, r.stdout[-500:]))
         res = (r.returncode != 0, r.stdout)
     except subprocess.TimeoutExpired as e:
         kind = 'hang'
@@ -315,8 +318,12 @@ def stage_jobs(pid, tier, si, stage, seed, workdir):
             corpus = out + '_corpus'
             os.makedirs(corpus, exist_ok=True)
             if w % 2 == 0:  # half of the workers start from a few valid (non-trivial) cases, half from nothing
-                subprocess.run([exe, 'corpus', '--seed', str(wseed), '--cases', '400', '--len', str(cfg.get('len', 100)), '--out', corpus,
-                                '--maxruns', '24'] + pargs, stdout=subprocess.DEVNULL, stderr=subprocess.DEVNULL)
+                try:  # on a broken tree this may crash or hang: the fuzzer then simply starts from an empty corpus
+                    subprocess.run([exe, 'corpus', '--seed', str(wseed), '--cases', '400', '--len', str(cfg.get('len', 100)), '--out', corpus,
+                                    '--maxruns', '24'] + pargs, stdout=subprocess.DEVNULL, stderr=subprocess.DEVNULL, timeout=60,
+                                   env=run_env(spec))
+                except subprocess.TimeoutExpired:
+                    pass
             cmd = [fz, '-seed=%d' % wseed, '-runs=%d' % n, '-max_len=%d' % cfg.get('max_len', 512), '-artifact_prefix=' + out + '_art_',
                    '-print_final_stats=1', '-timeout=25', '-rss_limit_mb=3000', corpus]
             extra_env = dict(VERIF_FUZZ_PARAMS=','.join('%s=%s' % (k, params[k]) for k in sorted(params)), VERIF_FUZZ_OUT=out)
@@ -619,6 +626,10 @@ def _run_property(pid, tier, prop, seed, workdir, evid_path, t0):
     with open(evid_path, 'w') as f:
         json.dump(ev, f, indent=1)
         f.write('\n')
+    # keep the latest evidence of each tier as well (evidence/<ID>.json always holds the most recent run)
+    tdir = os.path.join(os.path.dirname(evid_path), tier)
+    os.makedirs(tdir, exist_ok=True)
+    shutil.copy(evid_path, os.path.join(tdir, pid + '.json'))
     seen = set()
     for k in knowns:
         if k['what'] not in seen:
